@@ -201,6 +201,10 @@ func vf19Fb(run *verifrt.Run, c vfFbCfg, op vfConsOp) {
 	}
 	f := vfFont(c.Font)
 	cons := vfMkFb(c)
+	if len(op.Before) > 0 {
+		// a store through a framebuffer pointer that left the slice is a fatal fault, not a panic: attribute it
+		verifrt.JournalJSON(vf19Replay{Driver: "vesa", Fb: &c, Op: op})
+	}
 	// the reference's own palette: the default one, as loaded, plus every redefinition made through the API
 	model := make([]color.RGBA, len(cons.palette))
 	for i, pc := range cons.palette {
